@@ -2,6 +2,7 @@ package props
 
 import (
 	"fmt"
+	"go/types"
 	"strings"
 
 	"golang.org/x/tools/go/ssa"
@@ -149,4 +150,51 @@ func ruleClientNumericTolerance(c *Ctx, rule string) {
 	}
 	c.R.OK(rule, "client", fmt.Sprintf("%d numeric type assertions enumerated", n), "-", "")
 	c.Has(rule, cl+"runHandleInvocation", "forwarded timeout read type-tolerantly", `^call:wamp\.AsInt64\(%msg\.Details\["timeout"\]\)$`, 1)
+}
+
+// ruleKeepAliveCloses: a websocket peer whose keep-alive pings go unanswered closes its connection (which ends the
+// receive loop, so that the session — router side — or the client's Done() — client side — ends), on every path.
+func ruleKeepAliveCloses(c *Ctx, rule string) {
+	f := "transport.(*websocketPeer).sendHandlerKeepAlive"
+	missed := clause("two pings unanswered", F(`^\(call:sync/atomic\.LoadInt32\(&local:pendingPongs\) < 2\)$`))
+	c.Reach(rule, f, "unanswered keep-alive closes the connection", ReachSpec{FromEdge: &missed, Stop: `^call:invoke:transport\.WebsocketConnection\.Close\[%w\.conn\]\(\)$`, Target: "EXIT", Want: false})
+	c.Reach(rule, f, "no further ping once two are unanswered", ReachSpec{FromEdge: &missed, Target: `^call:invoke:transport\.WebsocketConnection\.WriteMessage\[%w\.conn\]\(9, `, Want: false})
+}
+
+// rulePayloadDecodeTarget: a payload-passthru body is decoded into a value, or into a pointer that is checked for
+// nil before its fields are read (an encoded null decodes to a nil pointer).
+func rulePayloadDecodeTarget(c *Ctx, rule string) {
+	n := 0
+	for _, fn := range c.P.FuncsIn("client") {
+		name := ir.ShortName(fn)
+		for _, in := range ir.Instrs(fn) {
+			call, ok := in.(*ssa.Call)
+			if !ok || !strings.Contains(ir.InstrDesc(in), "serialize.Serializer.DeserializeDataItem[") || len(call.Call.Args) != 2 {
+				continue
+			}
+			a, ok := ir.StripIface(call.Call.Args[1]).(*ssa.Alloc)
+			if !ok {
+				c.R.Unknown(rule, name, "decode target of "+ir.InstrDesc(in), c.pos(in), "decode target is not a local variable")
+				continue
+			}
+			n++
+			if _, isPtr := a.Type().(*types.Pointer).Elem().Underlying().(*types.Pointer); !isPtr {
+				c.R.OK(rule, name, "payload decoded into a value: "+ir.Desc(a), c.pos(in), "")
+				continue
+			}
+			local := strings.TrimPrefix(ir.Desc(a), "&")
+			nilChecked := ir.Clause{Name: "decoded payload is not nil", Edges: []ir.EdgeSpec{F(`^\(` + q(local) + ` == nil\)$`)}}
+			used := 0
+			for _, ex := range ir.Exits(fn, false) {
+				if !strings.Contains(ir.InstrDesc(ex), local+".") {
+					continue
+				}
+				used++
+				ok, w := ir.GuardedBy(fn, ex, nilChecked)
+				c.R.Check(ok && w.CutCount > 0, rule, name, fmt.Sprintf("fields of the decoded payload are read only after the nil check (return #%d)", used), c.pos(ex),
+					"the payload is decoded into the pointer "+local+" and its fields are read without a nil check: an encoded null makes the client's receive loop dereference nil")
+			}
+		}
+	}
+	c.R.Check(n >= 2, rule, "client", "payload decode sites enumerated", "-", fmt.Sprintf("found %d", n))
 }
